@@ -36,6 +36,7 @@ import (
 
 func TestMain(m *testing.M) {
 	log.SetHandler(discard.Default)
+	ev.Watchdog(5 * time.Minute)
 	code := m.Run()
 	ev.Flush()
 	os.Exit(code)
